@@ -400,7 +400,6 @@ def readers_rule(ctx, report, rule="READ"):
                 ok = g.k == "call" and g.a[0].name == "get" and "BTreeMap" in g.a[0].fn and P.match(g.a[1][0], P.field(P.param(1), "content")) is not None and strip(g.a[1][1]).k == "param"
         if not ok:
             # `let v = self.content.get(key.as_ref())?; Some(v.as_ref())` and match / if-let spellings of the same
-            from kernel import payload_base
             good, bad_ = 0, 0
             for bb_, idx_, e_, node_ in rets:
                 for a_ in (strip(e_).a[0] if strip(e_).k == "phi" else [strip(e_)]):
